@@ -230,6 +230,73 @@ fn main() {
         sink.merge(sw);
         sink.bump("wide-catalogue records", nw as u64);
     }
+    // a hello carrying each known / semantic extension (max_fragment_length codes, record_size_limit, supported_versions, ...)
+    // followed by a valid record of each size class: nothing an earlier record says limits what a later record may be
+    {
+        let mut blocks: Vec<Vec<u8>> = cat::known_extensions().into_iter().filter(|w| w.buf.len() < 200).map(|w| w.buf).collect();
+        blocks.extend(cat::semantic_extensions().into_iter().map(|e| e.1));
+        blocks.extend(cat::hello_profiles());
+        for code in 0..=5u8 {
+            blocks.push(vec![0, 1, 0, 1, code]);
+            blocks.push(vec![0, 28, 0, 2, 0, 64u8.wrapping_shl(code as u32 % 3)]);
+        }
+        let sizes = [0usize, 100, 513, 1025, 2049, 4097, 16384];
+        let items: Vec<(usize, bool, bool)> = (0..blocks.len()).flat_map(|b| [(b, true, false), (b, false, false), (b, true, true), (b, false, true)]).collect();
+        let sx = par_run(run.threads, items.len(), |i, sink| {
+            let (bi, server, dtls) = items[i];
+            let block = &blocks[bi];
+            let body = |w: &mut vcommon::en::W| {
+                w.u16(if dtls { 0xfefd } else { 0x0303 });
+                w.fill(32, 0x20);
+                w.block(1, "sid_len", |w| {
+                    w.fill(8, 9);
+                });
+                if server {
+                    w.u16(0xc02f).u8(0);
+                } else {
+                    if dtls {
+                        w.block(1, "cookie_len", |_| {});
+                    }
+                    w.block(2, "ciphers_len", |w| {
+                        w.u16(0xc02f).u16(0x00ff);
+                    });
+                    w.block(1, "comp_len", |w| {
+                        w.u8(0);
+                    });
+                }
+                w.block(2, "ext_len", |w| {
+                    w.bytes(block);
+                });
+            };
+            let ty = if server { 2 } else { 1 };
+            let hello = if dtls { cat::dtls_record(0x16, 0xfefd, 0, 1, |w| { w.append(&cat::dtls_hs(ty, 0, None, 0, body)); }).buf } else { cat::record(0x16, 0x0303, |w| { w.append(&cat::hs(ty, body)); }).buf };
+            for &n in &sizes {
+                for fty in [0x17u8, 0x16] {
+                    if dtls && fty == 0x17 {
+                        continue;
+                    }
+                    let mut b = hello.clone();
+                    let payload: Vec<u8> = if fty == 0x17 {
+                        vec![0xa7; n]
+                    } else if dtls {
+                        // the DTLS decoder knows ClientKeyExchange (opaque body) but neither Finished nor application data
+                        cat::dtls_hs(16, 5, None, 0, |w| { w.fill(n.saturating_sub(12), 0x77); }).buf
+                    } else {
+                        cat::hs(20, |w| { w.fill(n.saturating_sub(4), 0x77); }).buf
+                    };
+                    if dtls {
+                        b.extend([fty, 0xfe, 0xfd, 0, if fty == 0x17 { 1 } else { 0 }, 0, 0, 0, 0, 0, 7, (payload.len() >> 8) as u8, payload.len() as u8]);
+                    } else {
+                        b.extend([fty, 0x03, 0x03, (payload.len() >> 8) as u8, payload.len() as u8]);
+                    }
+                    b.extend_from_slice(&payload);
+                    check(&b, sink);
+                }
+            }
+        });
+        sink.merge(sx);
+        sink.bump("hello-with-extension x follower-size buffers", (items.len() * sizes.len() * 2) as u64);
+    }
     // buffers of many records (5..1000), alone and followed by a truncated record
     let many = cat::many_records();
     let nmany = many.len();
